@@ -298,6 +298,16 @@ async def scenario(prog, deep_lists, backend='dict'):
                 model.names = {n for n in after if n != 'INBOX'}
         elif got != want:
             errors.append(f'{where}: answered {got.decode()}, the model says {want.decode()}')
+        if k == 'status' and got == b'OK' and op[1] in after:
+            # what this connection is told about a mailbox is what any other connection of the user is told (no stale object
+            # from an earlier mailbox of that name)
+            vals = {}
+            for key in (b'MESSAGES', b'UIDVALIDITY'):
+                mm = re.search(key + rb' (\d+)', b' '.join(r['untagged']))
+                vals[key] = int(mm.group(1)) if mm else None
+            if (vals[b'UIDVALIDITY'], vals[b'MESSAGES']) != after[op[1]][:2]:
+                errors.append(f'{where}: this connection is told UIDVALIDITY {vals[b"UIDVALIDITY"]} MESSAGES {vals[b"MESSAGES"]}, another '
+                              f'connection of the same user {after[op[1]][:2]}')
         if got != b'OK' and after != before:
             errors.append(f'{where}: answered {got.decode()} but the mailboxes changed')
         if k == 'rename' and got == b'OK':
@@ -372,6 +382,15 @@ def bounded_names(label, backend='dict'):
             items.append((pre + (('create', n), ('subscribe', n), ('rename', n, 'z'), ('create', n)), True))
             items.append((pre + (('create', n), ('subscribe', n), ('append', n), ('status', n), ('unsubscribe', n),
                                  ('subscribe', n)), True))
+        # the life cycle of a name on one connection: what the connection learnt about an earlier mailbox of that name
+        # (STATUS, APPEND) says nothing about the name once that mailbox was deleted or renamed away
+        for n in ('a', 'B', 'é', 'a/b'):
+            pre = (('create', 'a'),) if n == 'a/b' else ()
+            items.append((pre + (('create', n), ('status', n), ('delete', n), ('status', n), ('append', n)), False))
+            items.append((pre + (('create', n), ('append', n), ('status', n), ('rename', n, 'z'), ('status', n), ('append', n),
+                                 ('create', n), ('status', n), ('status', 'z')), False))
+            items.append((pre + (('create', n), ('append', n), ('delete', n), ('create', n), ('status', n), ('append', n),
+                                 ('status', n)), False))
         rnd = random.Random(seed)
         creates = [x for x in o if x[0] == 'create']
         for _ in range(700 if tier == 'quick' else 8000):
